@@ -61,6 +61,10 @@ func main() {
 		checks.C09Race(os.Args[3:])
 		return
 	}
+	if id == "C16-worker" {
+		checks.C16Worker()
+		return
+	}
 	if id == "C20-worker" {
 		checks.C20Worker()
 		return
